@@ -113,3 +113,13 @@ Definition balance_report (known : acct -> bool) (ord : list ksum -> list ksum)
   | None => None
   | Some bal => let rows := filter sel bal in Some (mkBal rows (deltas rows))
   end.
+
+(* the code after the repair of finding F8 (commit 4dd4e5c): the de-duplicated sums are
+   sorted by key, so the iteration order of the hash set no longer reaches any output.
+   ord_sorted is a permutation, hence every theorem stated for all ord applies. *)
+Definition ord_sorted (l : list ksum) : list ksum :=
+  sort_by (fun a b => key_leb (fst a) (fst b)) l.
+Definition balance_det (known : acct -> bool) (ps : list bpost) : option (list brow) :=
+  balance known ord_sorted ps.
+Definition balance_report_det (known : acct -> bool) (sel : brow -> bool) (ps : list bpost)
+  : option bal_report := balance_report known ord_sorted sel ps.
